@@ -297,6 +297,10 @@ class SymtableCodeGen(AbstractCodeGen):
                     'syntax': syntax,  # (type, module), subtype
                     'origName': origName}
 
+        if not syntax[0]:
+            # an in-line SEQUENCE { ... }: rows take a named type
+            raise error.PySmiSemanticError('no type name in the SYNTAX of object %s' % origName)
+
         parents = [syntax[0][0]]
 
         if augmention:
